@@ -5,7 +5,7 @@ use crate::prog::*;
 use std::cell::{Cell, RefCell};
 use std::future::Future;
 use std::pin::Pin;
-use std::rc::{Rc, Weak};
+use std::rc::Rc;
 use std::task::{Context, Poll, Waker};
 
 #[derive(Default)]
@@ -22,7 +22,9 @@ thread_local! {
     /// whole-process counters of lazy statics: (created, dropped)
     pub static LAZY_LIVE: [Cell<(usize, usize)>; 2] = Default::default();
     /// the world of the iteration in progress (for destructors that perform loom operations)
-    pub static CUR_WORLD: RefCell<Option<Weak<World>>> = RefCell::new(None);
+    pub static CUR_WORLD: RefCell<Option<Rc<World>>> = RefCell::new(None);
+    /// number of initialisations of key k by loom thread t in this iteration
+    pub static PER_THREAD: RefCell<std::collections::HashMap<(usize, usize), usize>> = RefCell::new(Default::default());
 }
 
 pub fn reset(w: &Rc<World>) {
@@ -34,7 +36,8 @@ pub fn reset(w: &Rc<World>) {
             c.lazy_inits[i].set(0);
         }
     });
-    CUR_WORLD.with(|cw| *cw.borrow_mut() = Some(Rc::downgrade(w)));
+    CUR_WORLD.with(|cw| *cw.borrow_mut() = Some(w.clone()));
+    PER_THREAD.with(|p| p.borrow_mut().clear());
 }
 
 pub struct TlsVal {
@@ -44,29 +47,35 @@ pub struct TlsVal {
 
 impl TlsVal {
     fn new(key: usize) -> TlsVal {
-        let id = COUNTERS.with(|c| {
-            c.tls_inits[key].set(c.tls_inits[key].get() + 1);
-            c.tls_inits[key].get()
+        COUNTERS.with(|c| c.tls_inits[key].set(c.tls_inits[key].get() + 1));
+        // the id names the owning thread and counts its initialisations of this key
+        let (tid, _) = loom::verif::current();
+        let n = PER_THREAD.with(|p| {
+            let mut p = p.borrow_mut();
+            let e = p.entry((tid, key)).or_insert(0);
+            *e += 1;
+            *e
         });
-        TlsVal { key, id: id as i128 }
+        TlsVal { key, id: (tid * 10 + n) as i128 }
     }
 }
 
 impl Drop for TlsVal {
     fn drop(&mut self) {
         COUNTERS.with(|c| c.tls_drops[self.key].set(c.tls_drops[self.key].get() + 1));
-        let w = CUR_WORLD.with(|cw| cw.borrow().as_ref().and_then(|w| w.upgrade()));
+        let w = CUR_WORLD.with(|cw| cw.borrow().clone());
         if let Some(w) = w {
             match w.prog.cfg.tls_dtor {
                 1 => {
                     // a destructor that performs a loom operation
                     w.atomic_store(0, 10 + self.key as i128);
                 }
-                2 => {
-                    // a destructor that touches the other thread-local
-                    let other = 1 - self.key;
-                    let r = if other == 0 { K0.try_with(|v| v.id) } else { K1.try_with(|v| v.id) };
-                    COUNTERS.with(|c| c.tls_obs[self.key].set(if r.is_ok() { 1 } else { 2 }));
+                2 if self.key == 0 => {
+                    // a destructor that touches another thread-local.  (Only key 0's does: a value that
+                    // is initialised *during* thread-local destruction is dropped by loom outside the
+                    // execution, where its destructor must not touch loom again.)
+                    let r = K1.try_with(|v| v.id);
+                    COUNTERS.with(|c| c.tls_obs[0].set(if r.is_ok() { 1 } else { 2 }));
                 }
                 _ => {}
             }
@@ -147,13 +156,16 @@ pub fn tls_op(op: &Op) -> Ret {
 // scripted futures
 
 pub struct FutureState {
-    pub slot: RefCell<Option<Waker>>,
+    /// a hand-rolled waker slot: a loom mutex around `Option<Waker>`
+    pub slot: loom::sync::Mutex<Option<Waker>>,
     pub aw: loom::future::AtomicWaker,
 }
 
 impl FutureState {
     pub fn new() -> FutureState {
-        FutureState { slot: RefCell::new(None), aw: loom::future::AtomicWaker::new() }
+        // creation order (object indices): the slot's mutex, then the AtomicWaker's
+        let slot = loom::sync::Mutex::new(None);
+        FutureState { slot, aw: loom::future::AtomicWaker::new() }
     }
 }
 
@@ -172,10 +184,9 @@ impl Future for Scripted {
         }
         if self.mode == 0 {
             let new = cx.waker().clone();
-            let old = w.futures[self.f].slot.borrow_mut().replace(new);
-            drop(old);
-            // the slot itself carries no synchronisation: the usual fence pairing with the waking side
-            loom::sync::atomic::fence(std::sync::atomic::Ordering::SeqCst);
+            let mut g = w.futures[self.f].slot.lock().unwrap();
+            *g = Some(new); // an older registered waker is dropped here, inside the lock
+            drop(g);
         } else {
             w.futures[self.f].aw.register_by_ref(cx.waker());
         }
@@ -193,7 +204,9 @@ pub fn future_op(w: &Rc<World>, op: &Op) -> Ret {
             let v = loom::future::block_on(Scripted { w: w.clone(), f: *f, mode: *mode });
             // what dropping the future would release
             if *mode == 0 {
-                let old = w.futures[*f].slot.borrow_mut().take();
+                let mut g = w.futures[*f].slot.lock().unwrap();
+                let old = g.take();
+                drop(g);
                 drop(old);
             } else {
                 drop(w.futures[*f].aw.take_waker());
@@ -202,8 +215,9 @@ pub fn future_op(w: &Rc<World>, op: &Op) -> Ret {
         }
         Op::Wake(f) => {
             w.atomic_store_rel(*f, 1);
-            loom::sync::atomic::fence(std::sync::atomic::Ordering::SeqCst);
-            let wk = w.futures[*f].slot.borrow_mut().take();
+            let mut g = w.futures[*f].slot.lock().unwrap();
+            let wk = g.take();
+            drop(g);
             if let Some(wk) = wk {
                 wk.wake();
             }
@@ -211,16 +225,17 @@ pub fn future_op(w: &Rc<World>, op: &Op) -> Ret {
         }
         Op::WakeRef(f) => {
             w.atomic_store_rel(*f, 1);
-            loom::sync::atomic::fence(std::sync::atomic::Ordering::SeqCst);
-            // no RefCell borrow may be held across a loom operation (coroutines switch inside it)
-            let p = w.futures[*f].slot.as_ptr();
-            if let Some(wk) = unsafe { &*p }.as_ref() {
+            let g = w.futures[*f].slot.lock().unwrap();
+            if let Some(wk) = g.as_ref() {
                 wk.wake_by_ref();
             }
+            drop(g);
             Ret::Unit
         }
         Op::DropWaker(f) => {
-            let wk = w.futures[*f].slot.borrow_mut().take();
+            let mut g = w.futures[*f].slot.lock().unwrap();
+            let wk = g.take();
+            drop(g);
             drop(wk);
             Ret::Unit
         }
